@@ -410,25 +410,6 @@ Proof.
     destruct H as (R1 & R2 & R3). split; [exact R3|]. split; [exact R1 | exact R2].
 Qed.
 
-(* ---- SetNumObjects (not below the length) ------------------------------------------------------------------------ *)
-Lemma c_set_num_ok c l n k c' k' :
-  cont_ok c l -> len l <= n -> c_set_num c n k = (c', k') ->
-  cont_ok c' (set_len (N.to_nat n) defv l) /\ cnt_rel k k' (Z.of_N n - Z.of_N (len l)).
-Proof.
-  intros Hok Hle H. pose proof Hok as (Hn & Hm & Ho & Hr). unfold c_set_num in H.
-  destruct (if maxo c <? n then c_resize c n k else (c, k)) as [c1 k1] eqn:E1.
-  assert (H1 : cont_ok c1 l /\ n <= maxo c1 /\ cnt_rel k k1 0).
-  { destruct (N.ltb_spec (maxo c) n).
-    - apply c_resize_ok with (l := l) in E1; [|exact Hok|lia].
-      destruct E1 as (Hok1 & Hmax & Hc). split; [exact Hok1|]. split; [lia | exact Hc].
-    - inversion E1; subst. split; [exact Hok|]. split; [lia | apply cnt_rel_refl]. }
-  destruct H1 as (Hok1 & Hcap & Hc1).
-  destruct (iter_up (construct_step defv) (N.to_nat (n - num c1)) (num c1) (blk_of c1, k1)) as [a k2] eqn:E2.
-  inversion H; subst; clear H.
-  destruct (pad_ok _ _ _ _ _ _ _ Hok1 Hle Hcap E2) as [Hok2 Hc2].
-  split; [exact Hok2|]. eapply cnt_rel_trans; [exact Hc1 | exact Hc2 | lia].
-Qed.
-
 (* ---- SetNumObjectsUninitialized in its caller's protocol ----------------------------------------------------------- *)
 Lemma rep_firstn a a' l n :
   rep a l -> n <= len l -> (forall j, j < n -> get a' j = get a j) ->
@@ -442,6 +423,44 @@ Qed.
 Lemma set_len_cut n v w l : (n <= length l)%nat -> set_len n v l = set_len n w l.
 Proof.
   intro H. unfold set_len. replace (n - length l)%nat with 0%nat by lia. reflexivity.
+Qed.
+
+(* ---- SetNumObjects ------------------------------------------------------------------------------------------------ *)
+Lemma c_set_num_ok c l n k c' k' :
+  cont_ok c l -> c_set_num c n k = (c', k') ->
+  cont_ok c' (set_len (N.to_nat n) defv l) /\ cnt_rel k k' (Z.of_N n - Z.of_N (len l)).
+Proof.
+  intros Hok H. pose proof Hok as (Hn & Hm & Ho & Hr). unfold c_set_num in H.
+  destruct (if maxo c <? n then c_resize c n k else (c, k)) as [c1 k1] eqn:E1.
+  assert (H1 : cont_ok c1 l /\ n <= maxo c1 /\ cnt_rel k k1 0).
+  { destruct (N.ltb_spec (maxo c) n).
+    - apply c_resize_ok with (l := l) in E1; [|exact Hok|lia].
+      destruct E1 as (Hok1 & Hmax & Hc). split; [exact Hok1|]. split; [lia | exact Hc].
+    - inversion E1; subst. split; [exact Hok|]. split; [lia | apply cnt_rel_refl]. }
+  destruct H1 as (Hok1 & Hcap & Hc1). pose proof Hok1 as (Hn1 & Hm1 & Ho1 & Hr1).
+  destruct (iter_up destroy_step (N.to_nat (num c1 - n)) n (blk_of c1, k1)) as [a0 k2] eqn:E2.
+  destruct (N.le_gt_cases (len l) n) as [Hle|Hgt].
+  - (* growing or equal: nothing is destructed *)
+    replace (N.to_nat (num c1 - n)) with 0%nat in E2 by lia. cbn [iter_up] in E2.
+    inversion E2; subst a0 k2; clear E2.
+    destruct (iter_up (construct_step defv) (N.to_nat (n - num c1)) (num c1) (blk_of c1, k1)) as [a k3] eqn:E3.
+    inversion H; subst; clear H.
+    destruct (pad_ok _ _ _ _ _ _ _ Hok1 Hle Hcap E3) as [Hok2 Hc2].
+    split; [exact Hok2|]. eapply cnt_rel_trans; [exact Hc1 | exact Hc2 | lia].
+  - (* cutting: cells n .. num-1 are destructed, nothing is constructed *)
+    replace (N.to_nat (n - num c1)) with 0%nat in H by lia. cbn [iter_up] in H.
+    inversion H; subst; clear H.
+    apply destroy_range in E2.
+    + destruct E2 as [Hg Hc2].
+      destruct (cont_ok_some _ _ Hok1) as (a1 & E & Hr0); [lia|].
+      unfold upd_blk; cbn [objlist num maxo]. rewrite E. split.
+      * rewrite (set_len_cut _ defv 0%Z) by (unfold len in *; lia).
+        apply mk_ok; try lia.
+        -- apply rep_firstn with (a := a1); [exact Hr0 | lia |].
+           intros j Hj. rewrite Hg. rewrite (blk_of_some _ _ E). in_range; try lia; reflexivity.
+        -- unfold len. rewrite set_len_length. lia.
+      * eapply cnt_rel_trans; [exact Hc1 | exact Hc2 | lia].
+    + intros j Hj. eexists. apply Hr1. lia.
 Qed.
 
 Lemma c_set_num_u_ok c l n v k c' k' :
